@@ -15,6 +15,7 @@ import rules_entry as RE
 import rules_types as RT
 import rules_text as RX
 import rules_input as RI
+import rules_grammar as RG
 
 ASSUME_COMMON = [
     "rustc's type checker, MIR construction and drop elaboration (facts are read from the compiler, -Zmir-opt-level=0)",
@@ -62,24 +63,24 @@ STRUCT = {
 
 # "K" = the contract automata that serve this property (spec/contract_map.py)
 PROP_RULES = {
-    "C01": ["K", "D:POISON", "SEQ-PROV"],
-    "C02": ["K", "D:POISON", "BUILDER-PROV"],
-    "C03": ["ENTRY", "K", "STREAM", "D:POISON", "MODE-PURE"],
+    "C01": ["K", "D:POISON", "SEQ-PROV", "GRAMMAR", "ENTRY", "ENTRY-SIB", "CLONE-FIELDS"],
+    "C02": ["K", "D:POISON", "BUILDER-PROV", "GRAMMAR", "CLONE-FIELDS", "ENTRY-SIB"],
+    "C03": ["ENTRY", "K", "STREAM", "D:POISON", "MODE-PURE", "GRAMMAR", "ENTRY-SIB", "SUB-INPUT", "D:KEEP*", "HOOKS-WRITERS", "INPUT-MISC"],
     "C04": ["MODE-PAIR", "MODE-PURE", "K", "D:POISON", "ENTRY-SIB"],
     "C05": ["D:POISON", "D:KEEP", "D:LIFO", "HOOKS-SAVE-REWIND", "HOOKS-WRITERS", "MODE-PURE", "SUB-INPUT", "K"],
-    "C07": ["K", "SPAN-PROV", "READER-SIB", "INPUT-MISC"],
-    "C10": ["READER-SIB", "SPAN-PROV", "STREAM", "INPUT-MISC", "CHAR-SIB", "CHAR-PROV"],
-    "C06": ["D:ALT-LINEAR", "D:ALT-POS", "D:PFAIL", "ORDER-ARMS", "ERR-SPAN", "MERGE-ARMS", "ENTRY", "K"],
-    "C08": ["K", "D:POISON", "D:ALT-LINEAR", "D:PFAIL", "MODE-PURE", "SUB-INPUT"],
-    "C09": ["K", "D:POISON", "RECURSE", "AFFINE"],
-    "C11": ["K", "D:ALT-LINEAR", "D:ALT-POS", "D:PFAIL", "MEMO-KEY", "MEMO-WRITERS"],
-    "C12": ["RECURSE", "ONCE", "CLONE-FIELDS", "K"],
+    "C07": ["K", "SPAN-PROV", "READER-SIB", "INPUT-MISC", "GRAMMAR"],
+    "C10": ["READER-SIB", "SPAN-PROV", "STREAM", "INPUT-MISC", "CHAR-SIB", "CHAR-PROV", "GRAMMAR"],
+    "C06": ["D:ALT-LINEAR", "D:ALT-POS", "D:PFAIL", "ORDER-ARMS", "ERR-SPAN", "MERGE-ARMS", "ENTRY", "K", "READER-SIB", "SPAN-PROV"],
+    "C08": ["K", "D:POISON", "D:ALT-LINEAR", "D:PFAIL", "MODE-PURE", "SUB-INPUT", "GRAMMAR", "D:KEEP*", "D:LIFO*", "HOOKS-SAVE-REWIND"],
+    "C09": ["K", "D:POISON", "RECURSE", "AFFINE", "GRAMMAR"],
+    "C11": ["K", "D:ALT-LINEAR", "D:ALT-POS", "D:PFAIL", "MEMO-KEY", "MEMO-WRITERS", "GRAMMAR"],
+    "C12": ["RECURSE", "ONCE", "CLONE-FIELDS", "K", "GRAMMAR"],
     "C13": ["FREEZE", "STATICS", "OWN-STATE", "CLONE-FIELDS", "MODE-PAIR", "K"],
-    "C14": ["CHAR-SIB", "CHAR-PROV", "REGEX-ANCHOR", "K", "HOOKS-TOKEN", "SEQ-PROV", "MODE-PURE"],
-    "C15": ["K", "SUB-INPUT", "MODE-PAIR", "BUILDER-PROV"],
-    "C16": ["K", "SUB-INPUT", "D:ALT-LINEAR", "D:PFAIL", "SPAN-PROV", "READER-SIB"],
-    "C17": ["K", "D:ALT-LINEAR", "D:ALT-POS", "ERR-SPAN", "MODE-PAIR"],
-    "C18": ["HOOKS-WRITERS", "HOOKS-TOKEN", "HOOKS-SAVE-REWIND", "SUB-INPUT", "D:POISON", "D:KEEP", "K"],
+    "C14": ["CHAR-SIB", "CHAR-PROV", "REGEX-ANCHOR", "K", "HOOKS-TOKEN", "SEQ-PROV", "MODE-PURE", "GRAMMAR"],
+    "C15": ["K", "SUB-INPUT", "MODE-PAIR", "BUILDER-PROV", "GRAMMAR"],
+    "C16": ["K", "SUB-INPUT", "D:ALT-LINEAR", "D:PFAIL", "SPAN-PROV", "READER-SIB", "GRAMMAR"],
+    "C17": ["K", "D:ALT-LINEAR", "D:ALT-POS", "ERR-SPAN", "MODE-PAIR", "GRAMMAR"],
+    "C18": ["HOOKS-WRITERS", "HOOKS-TOKEN", "HOOKS-SAVE-REWIND", "SUB-INPUT", "D:POISON", "D:KEEP", "K", "GRAMMAR"],
     "C19": ["UNSAFE-INV", "MAYBEUNINIT", "CONTAINER-PROV"],
     "C20": ["D:PFAIL", "RECURSE", "INPUT-MISC", "NONCONSUMPTION-FWD", "MODE-PAIR", "K"],
 }
@@ -92,27 +93,35 @@ SCOPED = {"C01", "C02", "C08", "C09", "C11", "C15", "C16", "C17"}
 def eval_rules(names, config="all", pid=None):
     facts = factsmod.load(config)
     res = []
-    disc = [n[2:] for n in names if n.startswith("D:")]
-    if disc:
+    # "D:X" = discipline X on the property's own bodies (SCOPED properties) or crate-wide; "D:X*" = always crate-wide
+    disc_scoped = [n[2:] for n in names if n.startswith("D:") and not n.endswith("*")]
+    disc_wide = [n[2:-1] for n in names if n.startswith("D:") and n.endswith("*")]
+    if disc_scoped or disc_wide:
         run = RP.get_run(config)
         pred = None
         if pid in SCOPED:
             own = set(RC.bodies_for(run, pid))
             import re as _re
             pred = lambda u, own=own: _re.sub(r"(::\{closure#\d+\})+", "", u) in own
-        res.extend(RP.discipline(run, disc, pred))
+        if disc_scoped:
+            res.extend(RP.discipline(run, disc_scoped, pred))
+        if disc_wide:
+            res.extend(RP.discipline(run, disc_wide, None if pid in SCOPED else pred))
     for n in names:
         if n.startswith("D:"):
             continue
         if n == "K":
             res.append(RC.rule_contracts(pid, config))
             continue
+        if n == "GRAMMAR":
+            res.append(RG.rule_grammar_for(pid)(facts) if pid else RG.rule_grammar(facts))
+            continue
         if n == "RECURSE":
             res.append(RS.rule_recurse(facts, has_stacker="stacker" in facts.features))
         else:
             res.append(STRUCT[n](facts))
     # keep declared order
-    order = {(n[2:] if n.startswith("D:") else ("CONTRACT" if n == "K" else n)): i for i, n in enumerate(names)}
+    order = {(n[2:].rstrip("*") if n.startswith("D:") else ("CONTRACT" if n == "K" else n)): i for i, n in enumerate(names)}
     res.sort(key=lambda r: order.get(r.rule, 99))
     return res
 
@@ -135,11 +144,13 @@ def run_all_rules(config="all"):
     names = []
     for rs in PROP_RULES.values():
         for n in rs:
-            if n not in names and n != "K":
+            if n not in names and n not in ("K", "GRAMMAR"):
                 names.append(n)
     res = eval_rules(names, config)
     for pid in PROP_RULES:
         if "K" in PROP_RULES[pid]:
             res.append(RC.rule_contracts(pid, config))
+        if "GRAMMAR" in PROP_RULES[pid]:
+            res.append(RG.rule_grammar_for(pid)(factsmod.load(config)))
     res.append(RC.rule_contracts(None, config))
     return res
